@@ -3,7 +3,7 @@ from .. import core, sched
 from ..gen import KEY_POOL, hx, rng_for
 
 ENGINES = ["memkv", "badger", "tikv"]
-EXTRA_PROP_MODULES = [("KB.Props.C11Conflict", "KB.C11Conflict")]
+EXTRA_PROP_MODULES = [("KB.Props.C11Conflict", "KB.C11Conflict"), ("KB.Props.C01Repair", "KB.C01Repair")]
 
 
 def exhaustive_pairs(seed, engine):
@@ -169,6 +169,131 @@ def abandon_oracle(case):
     return None
 
 
+# ------------------------------------------------------------------ a create racing the repair of an uncertain delete
+#
+# /repo eb6d1d1. A delete of k lands but is answered "outcome unknown" (f=ua): k is deleted for every reader, its
+# revision record is N|deleted, revision N waits in the repair queue. The repair (pseudo client R, cfg retrysteps=1:
+# `retry` -> `at R iter`, `step R` = read + deal M -> `at R commit`, `step R` = compare-and-swap N|deleted -> M|deleted)
+# rewrites the record while a parked create of k (c1, dealt C) is between its storage calls: put-if-absent (refused by
+# the deletion record) [tikv: + read of the record, the conflict does not carry it], compare-and-swap against the record
+# it saw, read again, compare-and-swap against the record as it is now, ...
+#   early (the repair was dealt M BEFORE the create was dealt C, M < C): the key is deleted below C during the whole
+#     request and nobody creates it -> the create must be `ok C` (KB.C01Repair.create_over_repaired_deletion_succeeds;
+#     the creator before the fix answered `cf`: old_creator_cf_on_still_deleted_key);
+#   late (M > C): the record the creator reads again is a deletion ABOVE its own revision; writing C over M|deleted
+#     would break the per-key revision order (C02) - `cf C` is the expected, justified answer
+#     (KB.C01Repair.create_cf_when_repair_is_later: `Refuses` at the moment after the rewrite);
+#   random: the three steps of R placed anywhere among c1's steps (the model says which of the two it is, or that the
+#     repair found nothing to do because the create had already landed).
+
+CVR_KEY = b"/r/a"
+
+
+def create_vs_repair_case(seed, i, engine, variant):
+    from .. import hist
+    from ..gen import PREFIX
+    r = rng_for(seed, "c01cvr/%d" % i)
+    k = CVR_KEY
+    rd = ["rev", "get %s 0" % hx(k)]       # a point read of k by a bystander (`rev`: its header waits for the sequencer)
+    lines = [hist.cfg_line(engine, retry=0, check=5, retrysteps=1), "gated 1", "arm retry.step",
+             "watch w1 %s 0" % hx(PREFIX + b"/")]
+    if r.random() < 0.5:
+        lines += ["create %s %s" % (hx(b"/r/other"), hx(b"o1")), "rev"]
+    lines += ["create %s %s" % (hx(k), hx(b"v1")), "rev",
+              "delete %s 0 f=ua" % hx(k), "rev", "await retry.step"] + rd
+    start = "start c1 create %s %s" % (hx(k), hx(b"v2"))
+    # c1 up to just after its refused put-if-absent (tikv: and the read of the record the conflict did not carry)
+    first = ["step c1"] * (2 if engine.endswith("tikv") else 1)
+    if variant == "early":
+        ops = ["retry", "step R", start] + first + ["rd", "step R", "rd"] + ["step c1", "rd"] * 3
+    elif variant == "late":
+        ops = [start] + first + ["rd", "retry", "step R", "step R", "rd"] + ["step c1", "rd"] * 2
+    else:
+        # the repair's read (+ deal) goes before c1's op number a, its commit before op number b >= a: around the
+        # creator's first storage calls, where the two can meet
+        cl = [start] + ["step c1"] * 7
+        a = r.randint(0, 3)
+        b = r.randint(a, min(a + 3, len(cl)))
+        ops = []
+        for j, o in enumerate(cl + [None]):
+            if j == a:
+                ops += ["retry"] if r.random() < 0.5 or a == b else []
+                ops += ["step R"] if ops[-1:] == ["retry"] else ["retry", "step R"]
+            if j == b:
+                ops += ["step R"]
+            if o is not None:
+                ops.append(o)
+            if r.random() < 0.6:
+                ops.append("rd")
+    for o in ops:
+        lines += rd if o == "rd" else [o]
+    # drain: c1 to completion, the queue until it is empty, then quiescence
+    lines += ["step c1"] * 4 + rd
+    for _ in range(3):
+        lines += ["rev", "await retry.step", "retry", "step R", "step R"]
+    lines += ["rev", "await retry.step"] + rd + ["drain w1", "list %s %s 0 0" % (hx(PREFIX + b"/"), hx(PREFIX + b"0")), "dump"]
+    return core.Case("backend", lines, {"engine": engine, "cvr": variant}, model_suite="sched")
+
+
+def create_vs_repair_oracle(case):
+    """C01, last clause, on the implementation's transcript alone: the create c1 of k was answered 'condition failed'
+    at revision C although (a) every point read of k between the landed delete and the answer said 'absent', (b) no
+    event other than deletions was delivered for k after its first create, and (c) every deletion delivered for k has a
+    revision BELOW C. Then k was deleted below C at every moment of the request and nobody created it: the key never
+    differed from what a create expects."""
+    from .. import hist
+    k = hx(CVR_KEY)
+    began = None
+    ended = None
+    C = None
+    reads = []
+    events = None
+    for i, (line, out) in enumerate(zip(case.lines, case.impl)):
+        t, o = line.split(), out.split()
+        if t[0] == "delete" and t[1] == k and began is None:
+            began = i
+        if t[0] in ("start", "step") and len(t) > 1 and t[1] == "c1" and len(o) >= 4 and o[:3] == ["done", "c1", "create"]:
+            ended = i
+            if o[3] == "cf" and len(o) >= 5:
+                C = int(o[4])
+        if t[0] == "get" and t[1] == k and began is not None and ended is None and len(o) == 3 and o[1] != "err":
+            reads.append((i, o[2]))
+        if t[0] == "drain" and len(o) >= 3 and o[1] == "w1":
+            events = []
+            if o[2] != "-":
+                for e in o[2].split(","):
+                    typ, rev, kv = e.split(":", 2)
+                    kk, _v, _r = hist.parse_kv(kv)
+                    if kk == CVR_KEY:
+                        events.append((typ, int(rev)))
+    if C is None or events is None or not reads:
+        return None
+    if any(v != "-" for (_i, v) in reads):
+        return None
+    later = events[1:] if events and events[0][0] != "D" else events      # after the key's first create
+    if any(typ != "D" for (typ, _r) in later):
+        return None
+    dels = [rev for (typ, rev) in later if typ == "D"]
+    if any(rev >= C for rev in dels):
+        return None          # deleted at / above the create's revision: a justified refusal
+    return ("line %d: `%s` - the create of %s (c1) was answered 'condition failed' at revision %d although the key read "
+            "'absent' at every one of the %d point reads taken between its delete and that answer (lines %s), nobody "
+            "created it (events for the key after its first create: %s) and the only thing that happened to it was the "
+            "repair of the delete whose outcome was unknown: its revision record was rewritten from one deletion to another "
+            "(deletion revisions delivered: %s, all below %d). The key never differed from what a create expects" % (
+                ended + 1, case.lines[ended], CVR_KEY.decode(), C, len(reads), ",".join(str(i + 1) for (i, _v) in reads),
+                later or "none", dels or "none", C), "create-cf-on-deleted-key-after-repair")
+
+
+def create_vs_repair_cases(seed, tier):
+    if tier == "quick":
+        return [create_vs_repair_case(seed, 0, "memkv", "early"), create_vs_repair_case(seed, 1, "tikv", "early"),
+                create_vs_repair_case(seed, 2, "badger", "late")]
+    cases = [create_vs_repair_case(seed, 3 * j + e, eng, v) for j, v in enumerate(("early", "late")) for e, eng in enumerate(ENGINES)]
+    cases += [create_vs_repair_case(seed, 100 + i, ENGINES[i % 3], "random") for i in range(36)]
+    return cases
+
+
 def check(rep, tier, seed):
     n, n_clients = (30, 4) if tier == "quick" else (1500, 5)
     cases = []
@@ -192,17 +317,24 @@ def check(rep, tier, seed):
     ab = [abandon_case(seed, 0, "tikv", ("update", "update", 1, "none")), abandon_case(seed, 1, "metrics-tikv", ("delete", "update", 1, "none"))]
     ab += [abandon_case(seed, 2 + i, ("tikv", "metrics-tikv")[i % 2]) for i in range(1 if tier == "quick" else 300)]
     cases += ab
+    # a create of a deleted key racing the repair of the delete (eb6d1d1)
+    cvr = create_vs_repair_cases(seed, tier)
+    cases += cvr
     core.run_cases(cases)
     pick = lambda c: abandon_oracle(c) if c.meta.get("abandon") else (
-        stress_oracle(c) if c.meta.get("stress") else (sched.oracle_c01(c) or sched.oracle_cf_justified(c)))
-    # a concrete failing input of the newest clause first
+        create_vs_repair_oracle(c) if c.meta.get("cvr") else (
+            stress_oracle(c) if c.meta.get("stress") else (sched.oracle_c01(c) or sched.oracle_cf_justified(c))))
+    # a concrete failing input of the newest clauses first
+    if core.judge(rep, "C01", cvr, pick):
+        return
     if core.judge(rep, "C01", ab, pick):
         return
-    cases = [c for c in cases if not c.meta.get("abandon")]
+    cases = [c for c in cases if not c.meta.get("abandon") and not c.meta.get("cvr")]
     if core.judge(rep, "C01", cases, pick):
         return
     rep.cov["exhaustive_pair_schedules"] = len(ex)
     rep.cov["abandoned_writer_scripts"] = len(ab)
+    rep.cov["create_vs_repair_scripts"] = len(cvr)
     rep.assumptions += ["each engine serialises overlapping transactions on one index key (memkv store mutex, badger SSI, tikv optimistic conflict): "
                         "the gated harness applies each batch atomically at its release point",
                         "exhaustive part: all interleavings of 2 clients x 21 request-shape pairs on one live key (quick: memkv; thorough: all engines)"]
